@@ -1024,6 +1024,40 @@ class Interp:
         base = self.eval(n.value)
         return self.getattr(base, n.attr, n)
 
+    def auto_inline_method(self, clsname, attr):
+        """a method of a class under contract that has no contract of its own (e.g. a private helper introduced by a
+        refactoring): its real body is read from the class's source file and executed in line at the call site.
+        Nothing is assumed about it; the evidence lists every such helper."""
+        from . import extract as X
+        seen, stack = set(), [clsname]
+        while stack:
+            c = stack.pop(0)
+            if c in seen:
+                continue
+            seen.add(c)
+            spec = self.cset.classes.get(c)
+            if spec is None:
+                continue
+            stack.extend(spec.bases)
+            if not spec.file:
+                continue
+            key = "%s.%s" % (c, attr)
+            try:
+                node, _ = X.find_def(spec.file, key)
+            except X.ExtractError:
+                continue
+            import ast as _ast
+            if not isinstance(node, (_ast.FunctionDef, _ast.AsyncFunctionDef)):
+                continue
+            is_prop = any(isinstance(d, _ast.Name) and d.id == "property" for d in node.decorator_list)
+            fc = self.cset.fn(key, file=spec.file, inline=True, no_inv=True, is_property=is_prop)
+            fc.auto_inlined = True
+            note = "helper %s has no contract of its own: its real body (%s) is executed in line" % (key, spec.file)
+            if note not in self.notes:
+                self.notes.append(note)
+            return fc
+        return None
+
     def getattr(self, base, attr, node=None):
         base = self.force(base)
         if base.tag == "obj":
@@ -1036,6 +1070,8 @@ class Interp:
             if v is not MISSING:
                 return v
             fc = self.cset.lookup_method(obj.cls, attr)
+            if fc is None:
+                fc = self.auto_inline_method(obj.cls, attr)
             if fc is not None:
                 if fc.is_property:
                     return self.call_contract(fc, base, [], {}, node)
@@ -1070,6 +1106,9 @@ class Interp:
             g = self.cset.globals.get("%s.%s" % (base.name, attr))
             if g is not None:
                 return g
+            fc = self.auto_inline_method(base.name, attr)
+            if fc is not None:
+                return VFn("func", key=fc.key)
             raise Unsupported("class attribute %s.%s" % (base.name, attr))
         if base.tag == "fn" and base.kind == "super":
             spec = self.cset.classes.get(base.cls)
